@@ -123,3 +123,17 @@ mod tests {
         }
     }
 }
+
+// Verification hooks (add-only, compiled only with `--cfg rngs_verif`).
+#[cfg(rngs_verif)]
+impl Xoroshiro128PlusPlus {
+    /// Verification hook: build a generator directly from its state words.
+    pub fn verif_from_state(s: [u64; 2]) -> Self {
+        Xoroshiro128PlusPlus { s0: s[0], s1: s[1] }
+    }
+
+    /// Verification hook: read the state words.
+    pub fn verif_state(&self) -> [u64; 2] {
+        [self.s0, self.s1]
+    }
+}
